@@ -1,4 +1,5 @@
 import WfProofs.StateStoreSnap
+import WfModel.StateStoreHist
 /-! Lemmas for C19 (extension): statements over *every* history, without the guard
 "bodies do not raise":
 
@@ -32,17 +33,6 @@ theorem runOuts_length {σ : Type} (step : σ → Op → σ × Out) (ops : List 
   | cons op ops ih => intro s; simp only [runOuts, List.length_cons, ih]
 
 /-! ### the nested dict edited in place -/
-
-/-- the nested-dict model whose `edit_state` block hands out the dict itself: what a body did
-before it raised stays (the transactional reading `Spec.step` drops it).  Every other operation,
-and every body that does not raise, is `Spec.step`. -/
-def Spec.stepLive (s : Spec) (op : Op) : Spec × Out :=
-  match op with
-  | .edit muts =>
-    match runMuts s.root muts with
-    | (r, none) => ({ s with root := r }, .none)
-    | (r, some e) => ({ s with root := r }, .err e)
-  | _ => Spec.step s op
 
 /-- the two readings return the same result for every operation (they differ in what they keep) -/
 theorem stepLive_out (s : Spec) (op : Op) : (Spec.stepLive s op).2 = (Spec.step s op).2 := by
@@ -126,22 +116,6 @@ theorem take_succ_append_cons {α : Type} (a : List α) (x : α) (r : List α) (
 /-! ### operations that must not be observable
 
 `outsAt keep ops outs`: the results at the positions of the operations satisfying `keep`. -/
-
-def outsAt (keep : Op → Bool) : List Op → List Out → List Out
-  | op :: ops, o :: os => if keep op then o :: outsAt keep ops os else outsAt keep ops os
-  | _, _ => []
-
-def isMutSnap : Op → Bool
-  | .mutSnap .. => true
-  | _ => false
-
-def isWriteBack : Op → Bool
-  | .writeBack => true
-  | _ => false
-
-def isGet : Op → Bool
-  | .get .. => true
-  | _ => false
 
 /-- the SQLite machine depends on its row only through what the row means (`abs`): a row that does
 not exist yet and a row holding the defaults are indistinguishable -/
@@ -401,17 +375,6 @@ theorem tyInv_run {sc : Schema} {ty : Ty} (ops : List Op) : ∀ s : Spec, TyInv 
 
 /-! ### the field set of a typed state -/
 
-def keys (d : Obj) : List String := d.map (·.1)
-
-/-- a `set_state` argument carries exactly the fields of its class (pydantic fills in defaults
-and rejects unknown names when the instance is built) -/
-def opWf (sc : Schema) (ty : Ty) : Op → Bool
-  | .setState ity data =>
-    match incTy ty ity with
-    | .typed n => keys data == keys (fieldsOf sc n)
-    | _ => true
-  | _ => true
-
 theorem keys_upsert_of_isSome (k : String) (v : Json) (d : Obj) (h : (lookup k d).isSome = true) :
     keys (upsert k v d) = keys d := by
   induction d with
@@ -626,22 +589,9 @@ theorem keysInv_run {sc : Schema} {n : Nat} (ops : List Op) : ∀ s : Spec, TyIn
 
 /-! ### what a write-back installs -/
 
-/-- operations between taking a snapshot and writing it back -/
-def noSnapTaking : Op → Bool
-  | .getState => false
-  | .writeBack => false
-  | _ => true
-
-/-- the snapshot `h` after the caller's own top-level mutations among `ops` (a mutation that raises
-changes nothing); no other operation touches it -/
-def snapAfter (h : Root) : List Op → Root
-  | [] => h
-  | .mutSnap k v :: ops => snapAfter (match rootAssign h k v with | .ok h' => h' | .error _ => h) ops
-  | _ :: ops => snapAfter h ops
-
 theorem snapMut_some (h : Root) (k : String) (v : Json) :
-    (snapMut (some h) k v).1 = some (match rootAssign h k v with | .ok h' => h' | .error _ => h) := by
-  simp only [snapMut]
+    (snapMut (some h) k v).1 = some (snapAssign h k v) := by
+  simp only [snapMut, snapAssign]
   cases rootAssign h k v <;> rfl
 
 theorem spec_step_held (s : Spec) (op : Op) (h1 : noSnapTaking op = true) (h2 : isMutSnap op = false) :
@@ -679,9 +629,9 @@ theorem spec_writeBack_installs (ops : List Op) : ∀ (s : Spec) (h : Root), s.h
     by_cases hm : isMutSnap op = true
     · cases op with
       | mutSnap k v =>
-        have e1 : (Spec.step s (.mutSnap k v)).1.held = some (match rootAssign h k v with | .ok h' => h' | .error _ => h) := by
+        have e1 : (Spec.step s (.mutSnap k v)).1.held = some (snapAssign h k v) := by
           simp only [Spec.step, hh, snapMut_some]
-        have e2 : (Spec.stepLive s (.mutSnap k v)).1.held = some (match rootAssign h k v with | .ok h' => h' | .error _ => h) := e1
+        have e2 : (Spec.stepLive s (.mutSnap k v)).1.held = some (snapAssign h k v) := e1
         exact ⟨by simpa only [List.cons_append, runState, snapAfter] using (ih _ _ e1 hrest).1,
                by simpa only [List.cons_append, runState, snapAfter] using (ih _ _ e2 hrest).2⟩
       | _ => cases hm
